@@ -146,6 +146,15 @@ def run(model: Model, rep: Report, tier: str) -> None:
         inner = v[1]
         if not (inner[0] == "call" and inner[1] == f"{IS}.id_star" and kwargs_of(inner).get("graph") == g):
             problems.append("the normalised expression is not ID* of the joint event on the original graph")
-    (rep.refuted if problems else rep.proven)("R8.4", construct(f, "normalisation"), "; ".join(problems), loc(f))
+    # the un-normalised estimand may be returned only when the CALLER gave no conditions (after node merging the re-associated condition
+    # set can be empty although the caller conditioned: then the joint would be returned in place of the conditional)
+    bare = [p for p in paths if p.kind == "return" and p.value[0] == "call" and p.value[1] == f"{IS}.id_star"]
+    for bp in bare:
+        gd = f_and(*[sa.cond(k) for k in bp.conds])
+        e1 = sa.cond(("eq", ("len", c), const(0)))
+        e2 = f_not(sa.cond(("truth", c)))
+        if not (compare(f_and(gd, f_not(e1)), False)[0] or compare(f_and(gd, f_not(e2)), False)[0]):
+            problems.append("ID*'s joint estimand is returned without normalisation on a path that does not establish that the caller's conditions are empty")
+    (rep.refuted if problems else rep.proven)("R8.4", construct(f, "normalisation"), "; ".join(sorted(set(problems))), loc(f))
     classes = concrete_expression_classes(model)
     c13.r13_4(model, rep, classes)
